@@ -600,6 +600,25 @@ func (e *Engine) assignPhis(st *State, from, to *ssa.BasicBlock) {
 			fr.names[p.Comment] = v
 			delete(fr.nameAddr, p.Comment)
 		}
+		if p.Comment == "rangeindex" {
+			// "ranged": the (unnamed) slice a range loop iterates over, for invariants about its elements
+			if refs := p.Referrers(); refs != nil {
+				for _, r1 := range *refs {
+					bo, ok := r1.(*ssa.BinOp)
+					if !ok || bo.Referrers() == nil {
+						continue
+					}
+					for _, r2 := range *bo.Referrers() {
+						if ia, ok := r2.(*ssa.IndexAddr); ok {
+							if rv, ok := fr.regs[ia.X]; ok {
+								fr.names["ranged"] = rv
+								delete(fr.nameAddr, "ranged")
+							}
+						}
+					}
+				}
+			}
+		}
 	}
 }
 
